@@ -5,6 +5,7 @@ package c13
 import (
 	"fmt"
 	"math/big"
+	"strings"
 
 	"github.com/consensys/gnark/frontend"
 	"github.com/consensys/gnark/std/lookup/logderivlookup"
@@ -23,6 +24,13 @@ type rcCheck struct {
 	v    int      // index into Vals, or -1 for a constant
 	c    *big.Int // the constant when v == -1
 	bits int
+}
+
+func (c rcCheck) String() string {
+	if c.v < 0 {
+		return fmt.Sprintf("Check(const %s, %d)", c.c, c.bits)
+	}
+	return fmt.Sprintf("Check(Vals[%d], %d)", c.v, c.bits)
 }
 
 type rcShape struct {
@@ -119,6 +127,38 @@ type lkShape struct {
 	nIdx    int
 	ops     []lkOp
 	useSum  bool // results are also used in arithmetic constrained against a public value
+}
+
+// opsString spells out the table program (inserts and lookup batches in order).
+func (s *lkShape) opsString() string {
+	var b strings.Builder
+	for _, o := range s.ops {
+		if o.insert {
+			if o.slot < 0 {
+				fmt.Fprintf(&b, "T%d.Insert(const %s) ", o.table, o.cst)
+			} else {
+				fmt.Fprintf(&b, "T%d.Insert(Ent[%d]) ", o.table, o.slot)
+			}
+			continue
+		}
+		fmt.Fprintf(&b, "T%d.Lookup(", o.table)
+		for i, q := range o.queries {
+			if i > 0 {
+				b.WriteByte(',')
+			}
+			if q.slot < 0 {
+				fmt.Fprintf(&b, "const %s", q.cidx)
+			} else {
+				fmt.Fprintf(&b, "Idx[%d]", q.slot)
+			}
+		}
+		b.WriteString(") ")
+		if b.Len() > 1500 {
+			b.WriteString("...")
+			break
+		}
+	}
+	return b.String()
 }
 
 func (s *lkShape) String() string {
@@ -234,13 +274,13 @@ type mgShape struct {
 }
 
 type mgCircuit struct {
-	Pub  frontend.Variable `gnark:",public"`
-	T1   [4]frontend.Variable // witness entries of table 1
-	Q1   [2]frontend.Variable // indices into table 1
-	Q2   [2]frontend.Variable // indices into table 2 (constant entries)
-	R    [3]frontend.Variable // range-checked values (8, 13, 20 bits)
-	A, B frontend.Variable    // two more range-checked values (60 bits) when the emulated field is not used
-	Own  frontend.Variable    // committed by the last harness callback only
+	Pub  frontend.Variable                      `gnark:",public"`
+	T1   [4]frontend.Variable                   // witness entries of table 1
+	Q1   [2]frontend.Variable                   // indices into table 1
+	Q2   [2]frontend.Variable                   // indices into table 2 (constant entries)
+	R    [3]frontend.Variable                   // range-checked values (8, 13, 20 bits)
+	A, B frontend.Variable                      // two more range-checked values (60 bits) when the emulated field is not used
+	Own  frontend.Variable                      // committed by the last harness callback only
 	EA   emulated.Element[emulated.Secp256k1Fp] // operands of the emulated multiplication (4 limbs each)
 	EB   emulated.Element[emulated.Secp256k1Fp]
 	sh   *mgShape
